@@ -463,6 +463,39 @@ def class_pairs():
                                ("assignment", "int x = 0; x = {1};", "int[] x = {0}; x = {1};"), ("string initialiser", "string t = {\"a\"};", "string[] t = {\"a\"};")]:
         P.append(("array literal where no array is declared", pos, "class A { public constructor() -> A { } }\nfunction main() -> void { %s }" % bad_s,
                   "class A { public constructor() -> A { } }\nfunction main() -> void { %s }" % good_s))
+    # null only for class references: every position a value can be handed over in, for array, primitive and string targets
+    nl = ("class Box { public int[] v; public int n = 0; public Box other = null; public constructor(int[] a) -> Box { this.v = a; }\n"
+          " public constructor(Box o, int k) -> Box { this.other = o; this.v = {k}; } public function m(int[] a) -> int { return 1; } public function p(int k) -> int { return k; }\n"
+          " public function s(string t) -> int { return 2; } public function o(Box b) -> int { return 3; } }\n"
+          "class Sub extends Box { public constructor() -> Sub { super(%s); } }\n"
+          "function f(int[] a) -> int { return 4; }\nfunction g() -> int[] { int[] r = {1}; %s }\n"
+          "function main() -> void { int[] arr = {1, 2}; Box b = new Box(arr); %s }")
+    def nlp(sup="null, 1", ret="return r;", body=""):
+        return nl % (sup, ret, body)
+    for pos, bad, good in [("constructor argument for an array parameter", nlp(body="Box c = new Box(null);"), nlp(body="Box c = new Box(null, 1);")),
+                           ("super(...) argument for an array parameter", nlp(sup="null"), nlp(sup="null, 1")),
+                           ("method argument for an array parameter", nlp(body="echo(b.m(null));"), nlp(body="echo(b.o(null));")),
+                           ("function argument for an array parameter", nlp(body="echo(f(null));"), nlp(body="echo(f(arr));")),
+                           ("method argument for an int parameter", nlp(body="echo(b.p(null));"), nlp(body="echo(b.p(1));")),
+                           ("method argument for a string parameter", nlp(body="echo(b.s(null));"), nlp(body="echo(b.s(\"x\"));")),
+                           ("array local initialiser", nlp(body="int[] z = null;"), nlp(body="Box z = null;")),
+                           ("array local assignment", nlp(body="arr = null;"), nlp(body="b = null;")),
+                           ("array field assignment", nlp(body="b.v = null;"), nlp(body="b.other = null;")),
+                           ("int field assignment", nlp(body="b.n = null;"), nlp(body="b.other = null;")),
+                           ("return from a function returning an array", nlp(ret="return null;"), nlp()),
+                           ("array element", nlp(body="arr[0] = null;"), nlp(body="arr[0] = 0;"))]:
+        P.append(("null where no class reference is expected", pos, bad, good))
+    # an array literal is never an argument for a primitive or class parameter; only a name, a member or super can be called
+    al = ("class B { public float w = 0.0f; public constructor(float t) -> B { this.w = t; } public function m(float t) -> int { return 1; } "
+          "public static function s(float t) -> int { return 2; } }\nclass C extends B { public constructor() -> C { super(%s); } }\n"
+          "function f(float t) -> int { return 3; }\nfunction main() -> void { qubit q; B b = new B(1.0f); %s }")
+    for pos, sup, bad_s, good_s in [("function argument", "1.0f", "echo(f({3.0f}));", "echo(f(3.0f));"), ("method argument", "1.0f", "echo(b.m({3.0f}));", "echo(b.m(3.0f));"),
+                                    ("static method argument", "1.0f", "echo(B.s({3.0f}));", "echo(B.s(3.0f));"), ("constructor argument", "1.0f", "B c = new B({3.0f});", "B c = new B(3.0f);"),
+                                    ("gate angle", "1.0f", "rx(q, {3.0f});", "rx(q, 3.0f);")]:
+        P.append(("an array literal where a primitive is expected", pos, al % (sup, bad_s), al % (sup, good_s)))
+    P.append(("an array literal where a primitive is expected", "super(...) argument", al % ("{1.0f}", ""), al % ("1.0f", "")))
+    for pos, bad_s, good_s in [("parenthesised gate name", "(x)(q);", "x(q);"), ("call of a call", "h(q)(q);", "h(q); h(q);"), ("parenthesised function name", "echo((f)(1.0f));", "echo(f(1.0f));")]:
+        P.append(("a call through something that is not a name", pos, al % ("1.0f", bad_s), al % ("1.0f", good_s)))
     # a field may not reuse the name of a field it inherits (bare name, this.f and x.f would be resolved against different classes)
     hd = "class O { %s public constructor() -> O { } public function f() -> void { } }\nclass M extends O { public constructor() -> M { super(); } }\nclass D extends %s { %s public constructor() -> D { super(); } }\nfunction main() -> void { D d = new D(); d.f(); }"
     for pos, basef, via, bad_f, good_f in [("private qubit hidden by a private qubit", "private qubit q;", "O", "private qubit q;", "private qubit r;"),
